@@ -11,10 +11,12 @@ import (
 	"crypto/x509"
 	"encoding/base64"
 	"fmt"
+	"github.com/saucelabs/forwarder/hostsfile"
 	"github.com/saucelabs/forwarder/internal/zzverif/tcore"
 	"net"
 	"os"
 	"regexp"
+	"sort"
 	"strings"
 	"testing"
 	"time"
@@ -582,9 +584,106 @@ func timeFrameScenario(x *explore.X, maxLen int) {
 	}
 }
 
+// ---- hosts-file aliases of localhost: every alias of a loopback address is known (or the file is refused) ----------
+
+var hostsLines = []struct {
+	name string
+	text func() string
+}{
+	{"localhost", func() string { return "127.0.0.1 localhost" }},
+	{"two-aliases-tab", func() string { return "127.0.0.1\tdevbox.internal dev2" }},
+	{"ipv6-loopback", func() string { return "::1 ip6-localhost ip6-loopback" }},
+	{"not-loopback", func() string { return "10.0.0.5 notlocal.example" }},
+	{"127.0.0.2", func() string { return "127.0.0.2 second.loop # trailing comment" }},
+	{"empty", func() string { return "" }},
+	{"blanks", func() string { return "   \t " }},
+	{"comment-10", func() string { return "#" + strings.Repeat("c", 9) }},
+	{"comment-4096", func() string { return "#" + strings.Repeat("c", 4095) }},
+	{"comment-65535", func() string { return "#" + strings.Repeat("c", 65534) }},
+	{"comment-65536", func() string { return "#" + strings.Repeat("c", 65535) }},
+	{"comment-65537", func() string { return "#" + strings.Repeat("c", 65536) }},
+	{"alias+comment-70000", func() string { return "127.0.0.1 long.comment.alias #" + strings.Repeat("c", 70000) }},
+	{"many-names-66000", func() string {
+		var b strings.Builder
+		b.WriteString("127.0.0.1")
+		for i := 0; b.Len() < 66000; i++ {
+			fmt.Fprintf(&b, " n%d.many.example", i)
+		}
+		return b.String()
+	}},
+}
+
+// refAliases is the oracle's own reading of a hosts file: every name on a line whose address is a loopback address.
+func refAliases(content string) []string {
+	set := map[string]bool{}
+	for _, line := range strings.Split(content, "\n") {
+		line = strings.TrimSuffix(line, "\r")
+		if i := strings.IndexByte(line, '#'); i >= 0 {
+			line = line[:i]
+		}
+		fs := strings.Fields(line)
+		if len(fs) < 2 {
+			continue
+		}
+		if ip := net.ParseIP(fs[0]); ip != nil && ip.IsLoopback() {
+			for _, n := range fs[1:] {
+				set[n] = true
+			}
+		}
+	}
+	var out []string
+	for n := range set {
+		out = append(out, n)
+	}
+	sort.Strings(out)
+	return out
+}
+
+// hostsFileScenario: every hosts file of n lines from the alphabet (LF or CRLF line ends, with or without a
+// final line end) is read by the function behind LocalhostAliases. It may refuse the file (the proxy then does
+// not start); if it accepts it, it must know every alias of a loopback address - a silently shortened list
+// means requests to the missing aliases escape localhost denial.
+func hostsFileScenario(x *explore.X, n int) {
+	var names []string
+	var lines []string
+	for i := 0; i < n; i++ {
+		l := hostsLines[x.ChooseFree(fmt.Sprintf("line-%d", i), len(hostsLines))]
+		names = append(names, l.name)
+		lines = append(lines, l.text())
+	}
+	eol := []string{"\n", "\r\n"}[x.ChooseFree("line-end", 2)]
+	content := strings.Join(lines, eol)
+	if x.ChooseFree("final-line-end", 2) == 1 {
+		content += eol
+	}
+	got, err := hostsfile.VerifReadLocalhostAliases(strings.NewReader(content))
+	x.Check()
+	if err != nil {
+		x.Outcome("refused: " + strings.SplitN(err.Error(), ":", 2)[0])
+		return
+	}
+	want := refAliases(content)
+	sort.Strings(got)
+	if strings.Join(got, " ") != strings.Join(want, " ") {
+		missing := []string{}
+		have := map[string]bool{}
+		for _, g := range got {
+			have[g] = true
+		}
+		for _, w := range want {
+			if !have[w] && len(missing) < 5 {
+				missing = append(missing, w)
+			}
+		}
+		x.Failf("hosts-file-alias-unknown", "hosts file with lines %v (line end %q): accepted, but %d of %d aliases of loopback addresses are known; missing e.g. %v", names, eol, len(got), len(want), missing)
+		return
+	}
+	x.Outcome(fmt.Sprintf("accepted: %d aliases", len(want)))
+}
+
 func TestC04(t *testing.T) {
 	s := explore.NewSuite(t, "C04", "exploration",
-		"controls {basic auth, deny-domains (include+exclude list), localhost denial, allowed time frame with the virtual clock inside/outside} x request kind(6: absolute-form, origin-form, CONNECT, inside a MITM'd tunnel, HTTP/1.0, POST with unusual header layout) x credential variant(22, incl. the right base64 text with letter case altered) x host spelling(17-19, incl. hosts-file aliases read by the oracle's own parser) x position on the connection(3); deviation-bounded exploration (D=2 quick, 3 thorough) plus the full products controls x kind x credentials and controls x kind x host; plus (time-frame-over-time) one proxy with frames sat/7-9, sat/22-24, sun/0-1 in 5 local time zones (UTC, +05:30, +05:45, -03:30, +13:00) and EVERY increasing sequence of 1-2 (quick) / 1-3 (thorough) request instants out of 16 placed 1 s around every frame boundary, midnight and the UTC hour boundaries of the fractional zones, each request decided by a reference from local weekday/hour; plus (concurrent-deny-decisions, Engine T) the deny-domains matcher of this configuration asked by 2-3 connections at once about 4 hosts (after 0-1 earlier questions), ruleset/regexp.go rebuilt with a scheduling point before every statement, every interleaving within 2 (quick) / 3 (thorough) preemptions: every verdict, and every later single verdict, is the list's; each execution compares the proxy's answer with the reference decision (first failing control in documented order) and proves from the in-memory network's dial log and byte counters that a refused request caused no connection and no byte upstream")
+		"controls {basic auth, deny-domains (include+exclude list), localhost denial, allowed time frame with the virtual clock inside/outside} x request kind(6: absolute-form, origin-form, CONNECT, inside a MITM'd tunnel, HTTP/1.0, POST with unusual header layout) x credential variant(22, incl. the right base64 text with letter case altered) x host spelling(17-19, incl. hosts-file aliases read by the oracle's own parser) x position on the connection(3); deviation-bounded exploration (D=2 quick, 3 thorough) plus the full products controls x kind x credentials and controls x kind x host; plus (time-frame-over-time) one proxy with frames sat/7-9, sat/22-24, sun/0-1 in 5 local time zones (UTC, +05:30, +05:45, -03:30, +13:00) and EVERY increasing sequence of 1-2 (quick) / 1-3 (thorough) request instants out of 16 placed 1 s around every frame boundary, midnight and the UTC hour boundaries of the fractional zones, each request decided by a reference from local weekday/hour; plus (hosts-file) every hosts file of 2 (quick) / 3 (thorough) lines out of 14 (loopback entries, other entries, blanks, comments and lines of 10 ... 70000 octets around the 4096 and 65536 buffer sizes) x {LF, CRLF} x {final line end or not} read by the function behind LocalhostAliases: refused, or every alias of a loopback address known; plus (concurrent-deny-decisions, Engine T) the deny-domains matcher of this configuration asked by 2-3 connections at once about 4 hosts (after 0-1 earlier questions), ruleset/regexp.go rebuilt with a scheduling point before every statement, every interleaving within 2 (quick) / 3 (thorough) preemptions: every verdict, and every later single verdict, is the list's; each execution compares the proxy's answer with the reference decision (first failing control in documented order) and proves from the in-memory network's dial log and byte counters that a refused request caused no connection and no byte upstream")
 	s.Assume = []string{"simnet owns every dial of the proxy (listen/dial seams)", "deny-domains semantics on host case are those of the configured regular expressions (C17)", "TZ=UTC"}
 	s.Add(explore.Scenario{Name: "bounded", Remote: true, MaxDev: map[string]int{"quick": 2, "thorough": 3},
 		Run: func(x *explore.X) { world.Run(t, x, func() { scenario(x, 0) }) }})
@@ -596,6 +695,8 @@ func TestC04(t *testing.T) {
 		Run: func(x *explore.X) {
 			tcore.ConcurrentDecisions(t, x, denyList, []string{"denied.test", "ok.test", "x.blocked.test", "ok.blocked.test"}, deniedByList, "denied-host-decision/concurrent")
 		}})
+	s.Add(explore.Scenario{Name: "hosts-file-quick", Tiers: []string{"quick"}, Run: func(x *explore.X) { hostsFileScenario(x, 2) }})
+	s.Add(explore.Scenario{Name: "hosts-file-thorough", Tiers: []string{"thorough"}, Run: func(x *explore.X) { hostsFileScenario(x, 3) }})
 	s.Add(explore.Scenario{Name: "time-frame-over-time-quick", Remote: true, Tiers: []string{"quick"},
 		Run: func(x *explore.X) { world.Run(t, x, func() { timeFrameScenario(x, 2) }) }})
 	s.Add(explore.Scenario{Name: "time-frame-over-time-thorough", Remote: true, Tiers: []string{"thorough"},
